@@ -210,7 +210,7 @@ Thm(e, d) == CASE Family = "C01" -> CoreThm(e, d)
                [] Family \in {"C08", "C08i"} -> SliceThm(e, d)
                [] Family = "C02" -> ProjThm(e, d)
                [] Family \in {"C07", "C07d"} -> OpThm(e, d)
-               [] Family \in {"C09", "C09n", "C10", "C10d", "C10k"} -> FnThm(e, d)
+               [] Family \in {"C09", "C09n", "C10", "C10d", "C10k", "C09big"} -> FnThm(e, d)
                [] Family \in {"C16", "C06", "C18", "C18p"} -> WellFormed(Outcomes(e, d))
 
 Holds == idx >= 0 =>
